@@ -7,6 +7,7 @@
   * C07: Publish and Subscribe that start on a closed Pub/Sub return an error.
 -/
 import WmModel.Lemmas.GcRegRsStep
+import WmModel.Lemmas.GcRegClose
 namespace Wm.GcReg
 open Wm.Lts
 
@@ -164,5 +165,38 @@ theorem blocking_without_pending_writer_returns :
        .step 2, .step 2, .step 2] = some s ∧
       s.ths[2]? = some (.pub 0 [] .retOk none) ∧ s.readers = [] := by
   refine ⟨_, rfl, ?_, ?_⟩ <;> decide
+
+end Wm.GcReg
+
+namespace Wm.GcReg
+open Wm.Lts
+
+theorem reach_close (cfg : Cfg) : ∀ s, Reach (sys cfg) s → CloseOk s :=
+  inv_of_step (sys cfg) CloseOk (close_init cfg) (fun s a s' h ha => close_step s a s' h ha)
+
+/-- a Close call that has returned (or is waiting for the subscribers) has closed the Pub/Sub; `g.closing` is
+    signalled exactly when `closed` is set; the persisted backlog is dropped only after closing -/
+theorem close_returned_means_closed (cfg : Cfg) (s : St) (h : Reach (sys cfg) s) (i : Nat) (pc : CPc)
+    (hi : s.ths[i]? = some (.closer pc)) (hpc : pc ≠ .start) :
+    s.closed = true ∧ s.closingSig = true ∧ (s.logNil = true → s.closed = true) := by
+  obtain ⟨c1, _, c3, c4⟩ := reach_close cfg s h
+  have hc := c1 i pc hi hpc
+  exact ⟨hc, by rw [c3]; exact hc, c4⟩
+
+/-- **after Close has returned, Publish and Subscribe return an error**: in every reachable state in which some
+    Close call has returned, the first step of any Publish or Subscribe call – if it can move at all – is the
+    error return -/
+theorem after_close_errors (cfg : Cfg) (s : St) (h : Reach (sys cfg) s) (k : Nat)
+    (hk : s.ths[k]? = some (.closer .ret)) :
+    (∀ i t rest ao s', stepPub s i t rest .start ao = some s' → s' = setTh s i (.pub t rest .retErr ao)) ∧
+    (∀ i t sid s', stepSub s i t sid .start = some s' → s' = setTh s i (.sub t sid .retErr)) := by
+  have hc := (close_returned_means_closed cfg s h k .ret hk (by decide)).1
+  exact ⟨fun i t rest ao s' ha => publish_after_close_errs s s' i t rest ao hc ha,
+         fun i t sid s' ha => subscribe_after_close_errs s s' i t sid hc ha⟩
+
+/-- only the Close call that waits for the subscribers holds `closedLock` -/
+theorem closed_lock_owner (cfg : Cfg) (s : St) (h : Reach (sys cfg) s) (i : Nat) (hl : s.closedLock = some i) :
+    s.ths[i]? = some (.closer .waitWg) :=
+  ((reach_close cfg s h).2.1 i hl).1
 
 end Wm.GcReg
